@@ -100,9 +100,15 @@ class LedgerSim:
             key(i)
         W.key_by_pub(key(0).pub)
         filler_ts = None
-        if base == 'hlow':
+        easy = None
+        if base in ('hlow', 'hlow_easy'):
             reset_horizon(True)
             cs, root = W.genesis_base()
+            if base == 'hlow_easy':
+                # block 1 states the trivial target and is trusted history (added the way bulk download adds
+                # blocks: by-itself valid, never validated in chain); everything above it inherits the trivial
+                # target and is fully valid relative to its parent.
+                cs, easy = W.easy_block_one(cs)
         elif base == 'hboundary':
             reset_horizon(False)
             k = 2 + config.get('k', 0) % 5
@@ -124,6 +130,12 @@ class LedgerSim:
         self.chain.add_root(root)
         self.stored = [rules.block_id(root)]
         self.block_objs = {self.stored[0]: root}
+        self.trusted = set()
+        if easy is not None:
+            self.trusted.add(rules.block_id(easy))
+            self.chain.add(easy)
+            self.stored.append(rules.block_id(easy))
+            self.block_objs[self.stored[-1]] = easy
         self.snapshots = []
         self.sig_cache = {}
         self.dead = False
@@ -357,7 +369,7 @@ class LedgerSim:
                             'unspent set at %s differs from replay' % bid.hex()[:16])
                 return
             rb = self.chain.blocks[bid]
-            if rb.parent is not None:
+            if rb.parent is not None and bid not in self.trusted:
                 if rb.total > rb.parent.total + rules.subsidy(rb.height):
                     res.violate('C02', 'C02/supply-grew-more-than-subsidy',
                                 'total after %s exceeds parent total + subsidy' % bid.hex()[:16])
